@@ -40,7 +40,7 @@ def expr(F, B, op, depth=0):
     if c is not None:
         if "int" in c:
             return ("const", c["int"])
-        return ("constx", c.get("text"))
+        return ("constx", c.get("text"), c["unevaluated"]) if c.get("unevaluated") else ("constx", c.get("text"))
     pl = operand_place(op)
     if pl is None:
         return ("unknown", "operand")
@@ -300,7 +300,7 @@ def path_cases(F, b, max_paths=48):
     def opx(op, env):
         c = operand_const(op)
         if c is not None:
-            return ("const", c["int"]) if "int" in c else ("constx", c.get("text"))
+            return ("const", c["int"]) if "int" in c else (("constx", c.get("text"), c["unevaluated"]) if c.get("unevaluated") else ("constx", c.get("text")))
         pl = operand_place(op)
         if pl is None:
             return ("unknown", "operand")
